@@ -19,6 +19,21 @@ func UnmarshalJSON(src io.Reader) (Canonicalable, error) {
 
 	res, err := handleNextToken(dec)
 	if err != nil {
+		if err == io.ErrUnexpectedEOF {
+			return nil, errors.New("unexpected end of JSON input")
+		}
+		return nil, err
+	}
+	if res == nil {
+		return nil, errors.New("no JSON value found")
+	}
+
+	// The source must contain exactly one complete JSON value, so the only
+	// thing we can accept now is the end of the stream.
+	if _, err := dec.Token(); err != io.EOF {
+		if err == nil {
+			err = errors.New("unexpected data after JSON value")
+		}
 		return nil, err
 	}
 
@@ -48,7 +63,8 @@ func CanonicalJSON(src io.Reader) ([]byte, error) {
 func handleNextToken(dec *json.Decoder) (Canonicalable, error) {
 	t, err := dec.Token()
 	if err == io.EOF {
-		return nil, nil
+		// the stream ended while a value was still expected
+		return nil, io.ErrUnexpectedEOF
 	}
 	if err != nil {
 		return nil, err
